@@ -269,6 +269,7 @@ Definition qstate (now : Z) (s s' : state) : Prop :=
   | AwaitDataResponse _ _ _ => s' = s
   | PassToken true _ => s' = s
   | AwaitStatusResponse _ => s' = s \/ exists att, s = PassToken true att
+  | Offline => s' = s                      (* Offline only through set_offline, see is_reset *)
   | _ => True
   end.
 
@@ -278,6 +279,7 @@ Proof. destruct s as [ | | | | | | |g a| | ]; cbn; try tauto. destruct g; tauto.
 Lemma qstate_trans now s1 s2 s3 : qstate now s1 s2 -> qstate now s2 s3 -> qstate now s1 s3.
 Proof.
   intros H12 H23. destruct s3 as [ | | | | tk fa fcd | | a tk fa | g att | | a ]; cbn in *; try exact I.
+  - subst s2. exact H12.
   - destruct H23 as [<-|H]; [exact H12|right; exact H].
   - subst s2. exact H12.
   - destruct g; [|exact I]. subst s2. exact H12.
@@ -1261,5 +1263,146 @@ Proof.
 Qed.
 
 End Mon.
+
+(* ------------------------------------------------------------------------------------------ *)
+(* Part C: one poll, then histories                                                            *)
+
+(* poll_inner up to the dispatch: connectivity prologue, ongoing transmission, bus activity *)
+Definition dispatch (f : fdl) (now : Z) (w : W) : res (fdl * W) :=
+  match poll_dispatch (kind_of (f_state f)) with
+  | TgUnreachable => Panic SiteUnreachable
+  | TgTodo => Panic SiteUnreachable
+  | TgDo DoListenToken => do_listen_token A f now w
+  | TgDo DoClaimToken => do_claim_token A f now w
+  | TgDo DoUseToken => do_use_token A ops f now w
+  | TgDo DoAwaitDataResponse => do_await_data_response A ops f now w
+  | TgDo DoPassToken => do_pass_token A f now w
+  | TgDo DoCheckTokenPass => do_check_token_pass A f now w
+  | TgDo DoActiveIdle => do_active_idle A f now w
+  | TgDo DoAwaitStatusResponse => do_await_status_response A f now w
+  end.
+
+(* what the prologue may do to the state: nothing, or leave Offline / PassiveIdle *)
+Definition prologue_state (s s' : state) : Prop :=
+  s' = s \/ (in_visit (kind_of s) = false /\ (s' = PassiveIdle \/ s' = ListenToken None 0)).
+
+Lemma poll_inner_cases f now busy (w : W) f' w' :
+  poll_inner ops f now busy w = Ok (f', w') ->
+  (keepw w w' /\ keepf f f' /\ prologue_state (f_state f) (f_state f')) \/
+  (exists f3 w3, keepw w w3 /\ keepf f f3 /\ prologue_state (f_state f) (f_state f3) /\ dispatch f3 now w3 = Ok (f', w')).
+Proof.
+  unfold poll_inner. intros H.
+  match type of H with bind ?r _ = _ => destruct r as [[[f2 w2] off]| |] eqn:Ep end; cbn [bind] in H; try discriminate H.
+  assert (Hp : keepw w w2 /\ keepf f f2 /\ prologue_state (f_state f) (f_state f2)).
+  { destruct (f_conn f).
+    - destruct (f_state f) eqn:Es; try discriminate Ep. injection Ep as <- <- _.
+      split; [apply keepw_refl|]. split; [apply keepf_refl|left; exact Es].
+    - destruct (passive_entry_kind (kind_of (f_state f))) eqn:Ek.
+      + match type of Ep with context [trans A ?a ?b ?c] => destruct (trans A a b c) as [[f3 w3]| |] eqn:Et end; cbn [bind] in Ep; try discriminate Ep.
+        injection Ep as <- <- _. apply trans_keep in Et. destruct Et as [s' [Ht [_ [Hk [Hw Hs]]]]].
+        unfold transition_passive_idle in Ht. destruct (assert_kind _ _); cbn [bind] in Ht; try discriminate Ht. injection Ht as <-.
+        split; [exact Hw|]. split; [exact Hk|]. right. split; [destruct (f_state f); try discriminate Ek; reflexivity|left; exact Hs].
+      + injection Ep as <- <- _. split; [apply keepw_refl|]. split; [apply keepf_refl|left; reflexivity].
+    - destruct (online_entry_kind (kind_of (f_state f))) eqn:Ek.
+      + match type of Ep with context [trans A ?a ?b ?c] => destruct (trans A a b c) as [[f3 w3]| |] eqn:Et end; cbn [bind] in Ep; try discriminate Ep.
+        injection Ep as <- <- _. apply trans_keep in Et. destruct Et as [s' [Ht [_ [Hk [Hw Hs]]]]].
+        unfold transition_listen_token in Ht. destruct (assert_kind _ _); cbn [bind] in Ht; try discriminate Ht. injection Ht as <-.
+        split; [exact Hw|]. split; [exact Hk|]. right. split; [destruct (f_state f); try discriminate Ek; reflexivity|right; exact Hs].
+      + injection Ep as <- <- _. split; [apply keepw_refl|]. split; [apply keepf_refl|left; reflexivity]. }
+  destruct Hp as [Hw2 [Hk2 Hs2]].
+  destruct off; [injection H as <- <-; left; tauto|].
+  unfold check_for_ongoing_transmision in H.
+  match type of H with context [if ?c then (_, _, true) else _] => destruct c end.
+  - injection H as <- <-. left. split; [eapply keepw_trans; [exact Hw2|apply keepw_note]|].
+    split; [eapply keepf_trans; [exact Hk2|apply keepf_mark_bus_activity]|rewrite state_mark_bus_activity; exact Hs2].
+  - right. unfold check_for_bus_activity in H.
+    match type of H with context [if Nat.ltb ?a ?b then _ else _] => destruct (Nat.ltb a b) end.
+    + eexists; eexists. split; [|split; [|split; [|exact H]]].
+      * eapply keepw_trans; [exact Hw2|apply keepw_note].
+      * eapply keepf_trans; [exact Hk2|]. eapply keepf_trans; [apply keepf_mark_bus_activity|apply keepf_set_pending].
+      * cbn. rewrite state_mark_bus_activity. exact Hs2.
+    + eexists; eexists. split; [exact Hw2|]. split; [exact Hk2|]. split; [exact Hs2|exact H].
+Qed.
+
+(* One-step preservation for a poll.  n = number of applications. *)
+Lemma poll_inner_preserves n f now busy (w : W) f' w' m :
+  Inv n f m -> length (w_apps w) = n ->
+  poll_inner ops f now busy w = Ok (f', w') ->
+  exists l, w_calls w' = w_calls w ++ l /\ outcome n (ts f) now m l f' /\ length (w_apps w') = n /\ f_p f' = f_p f.
+Proof.
+  intros HI Hlen H. pose proof HI as [Hk [Hturn Hinv]].
+  apply poll_inner_cases in H.
+  assert (Hnv : in_visit (kind_of (f_state f)) = false -> c_out m = None).
+  { intros Hv. unfold inv_st in Hinv. destruct (f_state f); try discriminate Hv; tauto. }
+  (* a state the prologue moved to: nothing the monitor can see *)
+  assert (Hpro : forall g, keepf f g -> in_visit (kind_of (f_state f)) = false ->
+            f_state g = PassiveIdle \/ f_state g = ListenToken None 0 -> outcome n (ts f) now m [] g).
+  { intros g Kg Hv Hg. apply outcome_quiet.
+    - rewrite Hk; exact Hv.
+    - exact (Hnv Hv).
+    - destruct Hg as [-> | ->]; discriminate.
+    - intros _. destruct Kg as [_ [-> _]]. exact Hturn.
+    - destruct Hg as [-> | ->]; exact I. }
+  destruct H as [[Hw [Kf Hs]]|[f3 [w3 [Hw3 [Kf3 [Hs3 Hd]]]]]].
+  - exists []. rewrite app_nil_r. split; [apply Hw|]. split; [|split; [destruct Hw as [_ ->]; exact Hlen|apply Kf]].
+    destruct Hs as [Hs|[Hv Hs]].
+    + eapply outcome_same; [exact HI|exact Hs|apply Kf].
+    + apply Hpro; assumption.
+  - assert (Hlen3 : length (w_apps w3) = n) by (destruct Hw3 as [_ ->]; exact Hlen).
+    assert (Hc3 : w_calls w3 = w_calls w) by apply Hw3.
+    assert (Hp3 : f_p f3 = f_p f) by apply Kf3.
+    assert (Hn3 : f_next_app f3 = f_next_app f) by apply Kf3.
+    (* the six quiet functions *)
+    assert (Hquiet : in_visit (kind_of (f_state f3)) = false -> quiet now f3 w3 f' w' ->
+              exists l, w_calls w' = w_calls w ++ l /\ outcome n (ts f) now m l f' /\ length (w_apps w') = n /\ f_p f' = f_p f).
+    { intros Hv3 [[Qc Qa] [Qp Qd]]. exists []. rewrite app_nil_r. split; [congruence|].
+      split; [|split; [rewrite Qa; exact Hlen3|congruence]].
+      assert (Hvf : in_visit (kind_of (f_state f)) = false).
+      { destruct Hs3 as [E|[Hv _]]; [rewrite <- E; exact Hv3|exact Hv]. }
+      apply outcome_quiet.
+      - rewrite Hk. exact Hvf.
+      - exact (Hnv Hvf).
+      - destruct Qd as [[K Q]|R]; [|intros _; apply R]. intros Eo.
+        (* Offline without a reset: the state was Offline all along *)
+        exfalso. unfold dispatch in Hd. rewrite Eo in Q. cbn in Q.
+        rewrite <- Q in Hd. discriminate Hd.
+      - intros Hno. destruct Qd as [[[_ [K _]] _]|[R _]]; [rewrite K, Hn3; exact Hturn|contradiction].
+      - destruct Qd as [[_ Q]|[R _]]; [|rewrite R; exact I].
+        destruct (f_state f') as [ | | | |tk fa fcd| |a tk fa| | | ] eqn:Es'; try exact I; cbn in Q.
+        + destruct Q as [Q|Q]; [rewrite <- Q in Hv3; discriminate Hv3|injection Q as _ -> _; reflexivity].
+        + rewrite <- Q in Hv3. discriminate Hv3. }
+    unfold dispatch in Hd.
+    destruct (f_state f3) as [ | | | |tk fa fcd| |a tk fa| | | ] eqn:Es3; cbn [kind_of poll_dispatch] in Hd; try discriminate Hd.
+    + apply Hquiet; [reflexivity|]. apply do_listen_token_quiet. exact Hd.
+    + apply Hquiet; [reflexivity|]. apply do_active_idle_quiet. exact Hd.
+    + (* UseToken: the prologue cannot have produced it *)
+      assert (Hs : f_state f3 = f_state f) by (destruct Hs3 as [E|[_ [E|E]]]; [congruence|discriminate E|discriminate E]).
+      rewrite Es3 in Hs.
+      eapply do_use_token_mon with (n := n) (tsa := ts f) (m := m) in Hd.
+      * destruct Hd as [l [Hl [Hacc [Hlen' [Hp' [R1 [R2 R3]]]]]]]. exists l. split; [congruence|].
+        split; [|split; [exact Hlen'|congruence]]. apply outcome_visit; try assumption.
+        rewrite Hk, <- Hs. reflexivity.
+      * exact Hlen3.
+      * rewrite Hk, <- Hs. reflexivity.
+      * congruence.
+      * unfold inv_st in *. rewrite Es3, Hn3. rewrite <- Hs in Hinv. exact Hinv.
+    + apply Hquiet; [reflexivity|]. apply do_claim_token_quiet. exact Hd.
+    + assert (Hs : f_state f3 = f_state f) by (destruct Hs3 as [E|[_ [E|E]]]; [congruence|discriminate E|discriminate E]).
+      rewrite Es3 in Hs.
+      eapply do_await_data_response_mon with (n := n) (tsa := ts f) (m := m) in Hd.
+      * destruct Hd as [l [Hl [Hacc [Hlen' [Hp' [[R1 [R2 R3]]|[-> [R2 R3]]]]]]]].
+        -- exists l. split; [congruence|]. split; [|split; [exact Hlen'|congruence]]. apply outcome_visit; try assumption.
+           rewrite Hk, <- Hs. reflexivity.
+        -- exists []. split; [congruence|]. split; [|split; [exact Hlen'|congruence]].
+           eapply outcome_abandon; [exact HI|rewrite <- Hs; reflexivity|exact R2|congruence].
+      * unfold ts. rewrite Hp3. reflexivity.
+      * exact Hlen3.
+      * rewrite Hk, <- Hs. reflexivity.
+      * congruence.
+      * unfold inv_st in *. rewrite Es3, Hn3. rewrite <- Hs in Hinv. exact Hinv.
+    + apply Hquiet; [reflexivity|]. apply squiet_quiet. apply do_pass_token_squiet. exact Hd.
+    + apply Hquiet; [reflexivity|]. apply squiet_quiet. apply do_check_token_pass_squiet. exact Hd.
+    + apply Hquiet; [reflexivity|]. apply squiet_quiet. apply do_await_status_response_squiet. exact Hd.
+Qed.
 
 End Apps.
